@@ -23,6 +23,7 @@ PLANS['C12'] = [('sem', W(60000, 4000000, batch=1000)),
 # C16: focused delivery histories, then end-to-end non-seekable downloads
 PLANS['C16'] = [('defer', W(60000, 3000000, batch=1000)),
                 ('world', W(12000, 500000, gen_prop='C02'))]
+PLANS['C13'] = [('bw', W(60000, 3000000, batch=1000))]
 PLANS['C17'] = [('coord', W(80000, 5000000, batch=1000))]
 
 
